@@ -576,3 +576,13 @@ func StandardPhases(total int) []Phase {
 		[]Phase{PhaseGrow, PhaseChurn, PhaseShrink, PhaseDrain, PhaseGrow, PhaseChurn},
 		[]int{30, 20, 15, 12, 13, 10})
 }
+
+// wideSlab replaces the small slab size of every 11th case by a large one (the flow-go default is 1024; a library
+// user may configure far larger registers), so that every history-based check also sees trees whose element limits,
+// size fields and child counts are an order of magnitude larger.
+func wideSlab(cs int, base uint32) uint32 {
+	if cs%11 != 10 {
+		return base
+	}
+	return []uint32{4096, 32768, 2048, 16384, 8192}[cs/11%5]
+}
